@@ -794,6 +794,9 @@ func (e *eng) Op(f []string, line string, out *hx.Out) {
 		if f[1] == "refreshbackoff" {
 			pr = "C16" // retry pacing: the refresher must not restart a failing object's backoff
 		}
+		if f[1] == "validate" {
+			pr = "C14" // the configurations the convergence theorems exclude are rejected at registration
+		}
 		for _, b := range runProbe(f[1], false) {
 			s += " !BAD:" + pr + ":" + b
 		}
